@@ -324,7 +324,7 @@ func (st *Store) OnChange(cb func(id string, before, after interface{})) {
 // (where <prefix> is the set prefix), to mark the store as initialized.
 func (st *Store) Init(cb func(add func(id string, v interface{})) error) error {
 	created := make(map[string]interface{})
-	return st.DB.Update(func(txn *badger.Txn) error {
+	err := st.DB.Update(func(txn *badger.Txn) error {
 		var err error
 		initKey := []byte(`$` + st.prefix + `init`)
 		// Check init flag key
@@ -386,14 +386,18 @@ func (st *Store) Init(cb func(add func(id string, v interface{})) error) error {
 			created[id] = v
 		}
 
-		// Call OnChange callback
-		for id, v := range created {
-			st.callOnChange(id, nil, v)
-		}
-
 		// Set init flag key
 		return txn.Set(initKey, nil)
 	})
+	if err != nil {
+		return err
+	}
+
+	// Call OnChange callback once the resources are committed
+	for id, v := range created {
+		st.callOnChange(id, nil, v)
+	}
+	return nil
 }
 
 // getValue gets a value from the database and unmarshals it.
